@@ -33,7 +33,8 @@ def obligations_status(prop, build):
     if build.ok or not broken:
         # audit only when the modules of this property are built
         try:
-            n2, ok, bad, out = common.audit_list(mods, thms)
+            failed_mods = [f[:-5].replace('/', '.') for f, _ in build.errors if f.startswith('OpyVerif/') and f.endswith('.lean')]
+            n2, ok, bad, out = common.audit_list(mods, thms, failed=failed_mods)
             for t, why in bad:
                 broken.append((t, why))
         except Exception as ex:
